@@ -42,7 +42,7 @@ def sync_coq_mirror():
         # first use: take everything, compiled files and the current coq/Gen included (times preserved), so that only
         # what the scratch repository really changes in Gen is rebuilt
         os.makedirs(COQ, exist_ok=True)
-        cmd = ["rsync", "-a"] + common + [COQ_SRC + "/", COQ + "/"]
+        cmd = ["rsync", "-a"] + common[2:] + [COQ_SRC + "/", COQ + "/"]   # common[0:2] excludes extracted/: keep it here
     else:
         # later uses: sources only (never the other tree's Gen or compiled files)
         cmd = ["rsync", "-a", "--delete", "--exclude", "Gen/", "--exclude", "*.vo"] + common + [COQ_SRC + "/", COQ + "/"]
